@@ -290,7 +290,11 @@ def check_accepted(ctx, c, iface, real, target, res, draws):
     elif res["chain"] != draws:
         ctx.observe("conjugate_draws_per_step_not_one", sig)
     # the real target's own density along d
-    a_t, b_t, vals = target_coefficients(target)
+    try:
+        a_t, b_t, vals = target_coefficients(target)
+    except Exception as e:      # the posterior the sampler accepted cannot be evaluated: reported, not a crash of the check
+        ctx.mismatch("target_logd_raises/" + sig, c, "target.logd raises at d = 1, 2, 4: %r" % (e,))
+        return False
     a, r = res["gammas"][0][0], res["gammas"][0][1]
     cls = "len_half" if (abs(a - len_half) < 1e-9 and c["m"] != c["k"]) else "other"
     if not np.all(np.isfinite(vals)):
@@ -483,8 +487,12 @@ def replay_direct(ctx, c):
             return
         ctx.observations.setdefault("direct_validation_probe_calls", {})[c["tgt"]] = len(scr.calls)
         scr.values, scr.calls = [vec(v) for v in ids], []
-        s.sample(len(ids))
-        chain = np.asarray(s.get_samples().samples, dtype=float).reshape(n, -1)
+        try:
+            s.sample(len(ids))
+            chain = np.asarray(s.get_samples().samples, dtype=float).reshape(n, -1)
+        except Exception as e:
+            ctx.mismatch("direct_raises/" + key + "/scripted_sample", c, "Direct raises while sampling a target that has a sampling method: %r" % (e,))
+            return
     finally:
         del target.sample
     exp = np.array([vec(v) for v in ids]).T
@@ -515,11 +523,17 @@ def replay_direct(ctx, c):
         def filler(shape):
             return mk(100 + len(ret))(shape)
         with script_rng.scripted({}, default={"gamma": filler}) as st:
-            s = Direct(target)                            # probes made by validation draw filler values
-            n0, r0 = len(st.log), len(ret)
-            st.q["gamma"] = [mk(v) for v in ids]
-            s.sample(len(ids))
-            chain = np.asarray(s.get_samples().samples, dtype=float).reshape(n, -1)
+            try:
+                s = Direct(target)                            # probes made by validation draw filler values
+                n0, r0 = len(st.log), len(ret)
+                st.q["gamma"] = [mk(v) for v in ids]
+                s.sample(len(ids))
+                chain = np.asarray(s.get_samples().samples, dtype=float).reshape(n, -1)
+            except (script_rng.ScriptError, MachineryError):
+                raise
+            except Exception as e:
+                ctx.mismatch("direct_raises/" + key + "/scripted_generator", c, "Direct raises on a Gamma target: %r" % (e,))
+                return
             log = st.log[n0:]
         # the chain is, in order, made of values the target's generator returned while sampling
         pos, sub = r0, chain.shape[1] == len(ids)
